@@ -327,3 +327,133 @@ def usable_size_rule(chk, cid, prog, p, cfgname):
                             '`%s` gives %d for lwork = %d: the allocator would own bytes beyond work + lwork (or a size that is not word addressable)'
                             % (pretty(x)[:60], bad[1], bad[0]), cfgname=cfgname)
     return n
+
+
+def growth_progress_rule(chk, cid, prog, p, cfgname):
+    """?expand, ordinary (not keep_prev) request: the callers loop `while (need > capacity) expand`, so a successful return must have enlarged the array.
+    The growth factor is reduced step by step when the request does not fit; alpha * prev_len can then round down to prev_len.  Every path from a
+    reduction `new_len = alpha * *prev_len` inside a retry loop to the successful return has to pass a test of new_len against *prev_len
+    (found as a hang on the pinned tree, fixed in a68f306).  Also: the retry loops themselves may only run for ordinary requests (under keep_prev
+    the caller dictates the length, e.g. usub must keep the length of ucol: a failed allocation is reported, not retried with another length)."""
+    f = prog.func(p + 'expand')
+    chk.saw(unit=f.unit, func=f.unit + ':' + f.name)
+    cfg = prog.cfg(f)
+    node_of = {}
+    for cn in cfg.nodes:
+        if cn.ast is not None and cn.kind in ('stmt', 'cond', 'return', 'switch', 'abort'):
+            for x in cn.ast.walk():
+                node_of.setdefault(id(x), cn.id)
+    nl = next((k for k, v in f.locals.items() if v.a.get('name') == 'new_len'), None)
+    n = 0
+    # reductions inside loops
+    reds = []
+    loops = [x for x in f.body.walk() if x.k == 'While']
+    for lp in loops:
+        for x in lp.c[1].walk():
+            if x.k == 'Assign' and x.a['op'] == '=' and strip(x.c[0]).k == 'Ref' and strip(x.c[0]).a.get('id') == nl:
+                reds.append((lp, x))
+    guards = set()
+    for cn in cfg.nodes:
+        if cn.kind == 'cond' and cn.ast is not None:
+            c = strip(cn.ast)
+            if c.k == 'Binary' and c.a['op'] in ('<=', '<', '==', '>', '>=', '!='):
+                t = canon(c, ids=False)
+                if 'new_len' in t and 'prev_len' in t:
+                    guards.add(cn.id)
+    final = [cn.id for cn in cfg.nodes if cn.kind == 'return' and cn.ast is not None and cn.ast.c and 'expanders[type].mem' in canon(cn.ast.c[0], ids=False)]
+    for (lp, x) in reds:
+        n += 1
+        inst = '%s:reduced-request-still-grows@%d' % (f.name, n)
+        k = node_of.get(id(x))
+        bad = False
+        if k is None or not final:
+            bad = True
+        else:
+            # leave the loop: start from the false edge of the loop condition
+            seen = set()
+            st = [k]
+            while st:
+                q = st.pop()
+                if q in seen or q in guards:
+                    continue
+                seen.add(q)
+                if q in final:
+                    bad = True
+                    break
+                st.extend(s for (s, _) in cfg.nodes[q].succ)
+        if not bad:
+            chk.ok(cid, inst, sample='every path from the reduction at line %d to the successful return tests new_len against *prev_len' % x.line)
+        else:
+            chk.violate(cid, inst, loc(f, x), f.name,
+                        'after the growth factor was reduced (line %d) the routine can return success although new_len == *prev_len (alpha * prev_len rounds down): '
+                        'the caller loops `while (need > capacity)` around the expansion and never terminates' % x.line, cfgname=cfgname)
+    # retry loops only for ordinary requests
+    def walk(x, guards_, out):
+        if x.k == 'If':
+            c = canon(x.c[0], ids=False)
+            walk(x.c[1], guards_ + [(c, True)], out)
+            if len(x.c) > 2:
+                walk(x.c[2], guards_ + [(c, False)], out)
+            return
+        if x.k == 'While' and any(y.k == 'Assign' and strip(y.c[0]).k == 'Ref' and strip(y.c[0]).a.get('id') == nl for y in x.c[1].walk()):
+            out.append((x, guards_))
+        for c in x.c:
+            walk(c, guards_, out)
+    found = []
+    walk(f.body, [], found)
+    for (lp, gs) in found:
+        n += 1
+        inst = '%s:retry-only-without-keep_prev@%d' % (f.name, lp.line)
+        if ('keep_prev', False) in gs:
+            chk.ok(cid, inst)
+        else:
+            chk.violate(cid, inst, loc(f, lp), f.name,
+                        'the retry loop that asks for a different length runs also when keep_prev is set: the caller (USUB after UCOL) then records a capacity '
+                        'that differs from the length actually allocated', cfgname=cfgname)
+    if n < 4:
+        from ..run import AnalysisBroken
+        raise AnalysisBroken('%s: %d retry obligations found, expected 4' % (f.name, n))
+    return n
+
+
+def rollback_mark_rule(chk, cid, prog, p, cfgname):
+    """?LUMemInit, caller workspace: when the four big arrays do not fit, their space is released back to a saved mark and the attempt is repeated with a
+    smaller guess.  The five (n+1) integer arrays allocated before are kept across the retries, so the mark (copies of stack.used / stack.top1) must
+    be taken after they were allocated: a mark taken earlier hands their memory out again."""
+    f = prog.func(p + 'LUMemInit')
+    chk.saw(unit=f.unit, func=f.unit + ':' + f.name)
+    marks = [x for x in f.body.walk() if x.k == 'Assign' and x.a['op'] == '=' and strip(x.c[0]).k == 'Ref'
+             and canon(x.c[1], ids=False) in ('Glu->stack.used', 'Glu->stack.top1')]
+    allocs = [x for x in f.body.walk() if x.k == 'Assign' and any(y.k == 'Call' and callee_name(y) == p + 'user_malloc' for y in x.c[1].walk())
+              and strip(x.c[0]).k == 'Ref' and strip(x.c[0]).a.get('name') in ('xsup', 'supno', 'xlsub', 'xlusup', 'xusub')]
+    inst = '%s:rollback-mark-after-the-kept-arrays' % f.name
+    if len(marks) < 2 or len(allocs) != 5:
+        chk.violate(cid, inst, loc(f, f.body), f.name, 'expected the two mark assignments and the five kept allocations (found %d, %d)' % (len(marks), len(allocs)), cfgname=cfgname)
+        return 1
+    cfg = prog.cfg(f)
+    node_of = {}
+    for cn in cfg.nodes:
+        if cn.ast is not None and cn.kind in ('stmt', 'cond'):
+            for x in cn.ast.walk():
+                node_of.setdefault(id(x), cn.id)
+    ok = True
+    for m in marks:
+        for a in allocs:
+            # a must not be reachable from m (the mark comes last)
+            seen = set()
+            st = [node_of.get(id(m))]
+            while st:
+                q = st.pop()
+                if q is None or q in seen:
+                    continue
+                seen.add(q)
+                st.extend(s for (s, _) in cfg.nodes[q].succ)
+            if node_of.get(id(a)) in seen:
+                ok = False
+    if ok:
+        chk.ok(cid, inst, sample='marks at lines %s after the allocations at lines %s' % (sorted(m.line for m in marks), sorted(a.line for a in allocs)))
+    else:
+        chk.violate(cid, inst, loc(f, marks[0]), f.name,
+                    'the rollback mark (line %d) is taken before xsup/supno/xlsub/xlusup/xusub are allocated from the workspace: a retry releases and re-uses '
+                    'their memory while they are still in use' % marks[0].line, cfgname=cfgname)
+    return 1
